@@ -874,6 +874,8 @@ def build_B(cd, post_init=False):
         parent = mk("P%d" % next(_serial), object, range(cd["split"]), unsafe_hash=True,
                     cache_hash=cd["bcache"], slots=cd["slots"] or bool(cd.get("mixed")))
     kw = {"cache_hash": cd["cache"], "slots": cd["slots"]}
+    if cd.get("gs"):
+        kw["getstate_setstate"] = True
     ceq = cd.get("ceq", "gen")
     if cd["explicit"] or not cd["frozen"] or ceq != "gen":
         kw["unsafe_hash"] = True
@@ -888,7 +890,10 @@ def enc_cls(cd):
     # one class per case: identity and salt are irrelevant there (and large nat literals are unary in Coq)
     return "(Cl 0 0%%Z %s %s %s %s %s)" % (
         lst("(F %s %s)" % (opt(h, b), _EQ_COQ[e]) for h, e in cd["fields"]),
-        b(cd["cache"]), b(cd["frozen"]), b(cd["slots"]), b(cd.get("ceq", "gen") == "gen"))
+        b(cd["cache"]), b(cd["frozen"]),
+        # [slotted] of the model = "the instance state travels through the generated __getstate__/__setstate__":
+        # slotted classes, dict classes below a slotted attrs base (they regenerate the pair), getstate_setstate=True
+        b(bool(cd["slots"] or cd.get("mixed") or cd.get("gs"))), b(cd.get("ceq", "gen") == "gen"))
 
 
 def _inst(cls, vals):
@@ -1059,10 +1064,13 @@ def _post_cases(cd, start, rng, n):
     for _ in range(n):
         post = posts[0] if rng.random() < 0.4 else rng.choice(posts)
         ops = rng.choice(follow)
-        if cd["mixed"]:
+        if cd["mixed"] and _NO_MIXED_COPY:
             ops = [o for o in ops if o[0] not in ("copy", "deep", "pickle")] or [("hash",)]
         out.append(mk_P(cd, start, post, ops))
     return out
+
+
+_NO_MIXED_COPY = bool(os.environ.get("VERIF_C04_NO_MIXED_COPY"))
 
 
 def _fixed_histories(cd, start, rng):
@@ -1123,6 +1131,8 @@ def _class_descs(tier, rng):
         if d["ceq"] == "off":
             d["split"] = 0   # below an attrs base the base's generated __eq__ would be inherited
         d["mixed"] = bool(d["split"] > 0 and not slots and rng.random() < 0.3)
+        # a dict class with an explicitly requested generated __getstate__/__setstate__ pair
+        d["gs"] = bool(not slots and not d["mixed"] and rng.random() < 0.2)
         return d
 
     # two-field classes with at least one falsy key callable
@@ -1192,7 +1202,7 @@ def gen_B(tier, rng):
         fixed = _fixed_histories(cd, start, rng)
         picks = fixed if (tier == "thorough" and k <= 2 and rng.random() < 0.25) else rng.sample(fixed, 2)
         rnd = _random_history(k, rng)
-        if cd["mixed"]:
+        if cd["mixed"] and _NO_MIXED_COPY:
             picks = [[o for o in ops if o[0] not in ("copy", "deep", "pickle")] for ops in picks]
             rnd = [o for o in rnd if o[0] not in ("copy", "deep", "pickle")] or [("hash",)]
         for ops in picks:
